@@ -12,13 +12,28 @@ import (
 	"time"
 )
 
-const (
-	repoDir  = "/repo"
-	verifDir = "/verif"
+// repoDir: the tree under test (/repo; VERIF_REPO overrides it, used only to try the checks on a scratch
+// worktree that carries a seeded change).  verifDir: this framework (the directory bin/check lives in).
+var (
+	repoDir  = envOr("VERIF_REPO", "/repo")
+	verifDir = envOr("VERIF_DIR", "/verif")
 )
 
+func envOr(k, d string) string {
+	if v := os.Getenv(k); v != "" {
+		return v
+	}
+	return d
+}
+
 var (
-	binDir     = filepath.Join(verifDir, ".cache", "bin")
+	binDir = func() string {
+		if repoDir == "/repo" {
+			return filepath.Join(verifDir, ".cache", "bin")
+		}
+		h := sha256.Sum256([]byte(repoDir))
+		return filepath.Join(verifDir, ".cache", "bin-"+hex.EncodeToString(h[:4]))
+	}()
 	loxBin     = filepath.Join(binDir, "lox")
 	loxverif   = filepath.Join(binDir, "loxverif")
 	loxmodel   = filepath.Join(verifDir, "ocaml", "loxmodel")
